@@ -1,8 +1,152 @@
 package main
 
-import "fmt"
+import (
+	"bytes"
+	"fmt"
+	"go/ast"
+	"go/parser"
+	"go/printer"
+	"go/token"
+	"os"
+	"path/filepath"
+	"strconv"
+	"strings"
+)
 
-// spliceOverlay: filled in by splice_impl.go
-var spliceOverlay = func(repo string) (map[string][]byte, []string, error) {
-	return nil, nil, fmt.Errorf("splice overlay not implemented")
+// Functions whose stub-build bodies are empty and whose real bodies live in
+// control/bpf_utils.go (which cannot be compiled here because it needs bpf2go output).
+var splicedFuncs = map[string]bool{"Encode": true, "ParsePortRange": true, "cidrToBpfLpmKey": true}
+
+// spliceOverlay cuts, by AST and verbatim, the real encoder functions out of bpf_utils.go
+// into a virtual file and removes the same-named stubs from a virtual copy of bpf_stub.go.
+func spliceOverlay(repo string) (map[string][]byte, []string, error) {
+	fset := token.NewFileSet()
+	stubPath := filepath.Join(repo, "control", "bpf_stub.go")
+	realPath := filepath.Join(repo, "control", "bpf_utils.go")
+	stub, err := parser.ParseFile(fset, stubPath, nil, parser.ParseComments)
+	if err != nil {
+		return nil, nil, err
+	}
+	realF, err := parser.ParseFile(fset, realPath, nil, parser.ParseComments)
+	if err != nil {
+		return nil, nil, err
+	}
+	removed := map[string]bool{}
+	var keep []ast.Decl
+	for _, d := range stub.Decls {
+		if fd, ok := d.(*ast.FuncDecl); ok && splicedFuncs[fd.Name.Name] {
+			removed[fd.Name.Name] = true
+			continue
+		}
+		keep = append(keep, d)
+	}
+	stub.Decls = keep
+	stub.Comments = nil
+	var sb bytes.Buffer
+	sb.WriteString("//go:build dae_stub_ebpf\n\n")
+	if err := printer.Fprint(&sb, fset, stub); err != nil {
+		return nil, nil, err
+	}
+	stubOut := unusedImportsFixed(sb.Bytes())
+	// real functions
+	imports := map[string]string{} // local name -> path
+	for _, im := range realF.Imports {
+		p, _ := strconv.Unquote(im.Path.Value)
+		name := filepath.Base(p)
+		if im.Name != nil {
+			name = im.Name.Name
+		}
+		imports[name] = p
+	}
+	var funcs []*ast.FuncDecl
+	var names []string
+	used := map[string]bool{}
+	for _, d := range realF.Decls {
+		fd, ok := d.(*ast.FuncDecl)
+		if !ok || !splicedFuncs[fd.Name.Name] {
+			continue
+		}
+		funcs = append(funcs, fd)
+		names = append(names, "control."+fd.Name.Name)
+		ast.Inspect(fd, func(n ast.Node) bool {
+			if se, ok := n.(*ast.SelectorExpr); ok {
+				if id, ok := se.X.(*ast.Ident); ok {
+					if _, isImp := imports[id.Name]; isImp && id.Obj == nil {
+						used[id.Name] = true
+					}
+				}
+			}
+			return true
+		})
+	}
+	if len(funcs) != len(splicedFuncs) || len(removed) != len(splicedFuncs) {
+		return nil, nil, fmt.Errorf("expected to splice %d functions, found %d real / %d stubs", len(splicedFuncs), len(funcs), len(removed))
+	}
+	var rb bytes.Buffer
+	rb.WriteString("//go:build dae_stub_ebpf\n\n// Code cut verbatim from control/bpf_utils.go by vcheck (splice overlay).\n\npackage control\n\nimport (\n")
+	for n := range used {
+		if filepath.Base(imports[n]) == n {
+			fmt.Fprintf(&rb, "\t%q\n", imports[n])
+		} else {
+			fmt.Fprintf(&rb, "\t%s %q\n", n, imports[n])
+		}
+	}
+	rb.WriteString(")\n\n")
+	for _, fd := range funcs {
+		fd.Doc = nil
+		if err := printer.Fprint(&rb, fset, fd); err != nil {
+			return nil, nil, err
+		}
+		rb.WriteString("\n\n")
+	}
+	out := map[string][]byte{
+		stubPath: stubOut,
+		filepath.Join(repo, "control", "zz_verif_splice_real.go"): rb.Bytes(),
+	}
+	return out, names, nil
 }
+
+// unusedImportsFixed blanks imports that became unused after removing the stubs.
+func unusedImportsFixed(src []byte) []byte {
+	fset := token.NewFileSet()
+	f, err := parser.ParseFile(fset, "x.go", src, parser.ParseComments)
+	if err != nil {
+		return src
+	}
+	usedNames := map[string]bool{}
+	ast.Inspect(f, func(n ast.Node) bool {
+		if se, ok := n.(*ast.SelectorExpr); ok {
+			if id, ok := se.X.(*ast.Ident); ok {
+				usedNames[id.Name] = true
+			}
+		}
+		return true
+	})
+	changed := false
+	for _, im := range f.Imports {
+		p, _ := strconv.Unquote(im.Path.Value)
+		name := filepath.Base(p)
+		if im.Name != nil {
+			name = im.Name.Name
+		}
+		if name == "_" || name == "." {
+			continue
+		}
+		if !usedNames[name] {
+			im.Name = ast.NewIdent("_")
+			changed = true
+		}
+	}
+	if !changed {
+		return src
+	}
+	var sb bytes.Buffer
+	printer.Fprint(&sb, fset, f)
+	out := sb.String()
+	if !strings.HasPrefix(out, "//go:build") {
+		out = "//go:build dae_stub_ebpf\n\n" + out
+	}
+	return []byte(out)
+}
+
+var _ = os.ReadFile
